@@ -50,7 +50,7 @@ REACH = ["HttpAccessor.fetch_file", "HttpAccessor.fetch_chunk", "HttpAccessor.fi
          "HttpShard.fetch_cmc_chunk"]
 WORKER_TIMEOUT = {"quick": 1200, "thorough": 7200}
 CASE_TIMEOUT = 180
-FAULTS = ["404", "500", "503", "short", "long", "ignore-range", "drop"]
+FAULTS = ["404", "500", "502", "503", "short", "long", "ignore-range", "drop"]
 
 
 def gen_cases(tier, seed):
